@@ -8,6 +8,7 @@ mod c03_adaptive;
 mod c04;
 mod c05;
 mod c06;
+mod c10;
 mod coin;
 mod c13;
 mod c14;
@@ -41,6 +42,7 @@ fn main() {
         "C06" => c06::spec(),
         "C15" => c05::spec_c15(),
         "C19" => c19::spec(),
+        "C10" => c10::spec(),
         "C13" => c13::spec(),
         "C14" => c14::spec(),
         _ => {
